@@ -316,7 +316,7 @@ def read_requests(data, *, max_header_size=None, max_body_size=None, body_limit_
     """See module docstring.  ``body_limit_for(msg)`` -> per-request limit or None
     (then ``max_body_size`` applies).  ``http10_te_closes=False`` drops the RFC 9112 6.1 rule
     "Transfer-Encoding in an HTTP/1.0 message => close after it" (used to judge what follows
-    once that rule is known to be ignored)."""
+    once that rule is known to be ignored); ``"may"`` makes the close optional."""
     data = bytes(data)
     res = Result()
     pos = 0
@@ -474,7 +474,10 @@ def read_requests(data, *, max_header_size=None, max_body_size=None, body_limit_
                 # RFC 9112 6.1: Transfer-Encoding in an HTTP/1.0 message: framing is
                 # to be considered faulty; close after processing
                 msg.features.add("te_in_http10")
-                if http10_te_closes:
+                if http10_te_closes == "may":
+                    if msg.close == "no":
+                        msg.close = "may"
+                elif http10_te_closes:
                     msg.close = "must"
             # ---- body
             stage = "body"
